@@ -10,6 +10,8 @@ int  vf_nondet_int();
 void vf_assume(bool);
 void vf_assert(bool, const char*);
 void vf_reach(const char*);
+// is p inside the object [base, base+nbytes) ?  (cbmc: same object and offset in range -- no relational comparison of unrelated pointers)
+bool vf_within(const void* p, const void* base, long nbytes);
 }
 #ifdef VF_NATIVE
 extern "C" void vf_register(const char* name, void (*fn)());
